@@ -142,6 +142,9 @@ struct Ref {
     Params p;
     std::vector<LC> c, r, P, Pu, uP, g, R;
     LD kappa = 1;   // RLS: running max of ||P||_F ||R||_F (>= condition number of the weighted Gram matrix R = P^-1)
+    LD cscale = 0;  // LMS/NLMS: running maximum over the whole history of |c[j]| and of every update term |mu e conj(r[j]) / nrm| (what the coefficients' rounding errors are relative to)
+    LD min_inter = 1e4000L;   // LMS/NLMS: smallest NON-ZERO magnitude among the products a double evaluation forms (e, mu e, mu e conj(r), leak c, c r): below ~1e-290 the double
+                              // computation underflows where this long-double reference (wider exponent range) does not, and no comparison is meaningful
     bool locked = false;
     explicit Ref(const Params& q) : p(q), c(q.L, LC(0)), r(q.L, LC(0)) {
         if (p.kind == K_RLS) {
@@ -168,7 +171,14 @@ struct Ref {
                 for (int j = 0; j < n; ++j) pu += std::norm(r[j]);
                 nrm = pu + EPSD;
             }
-            for (int j = 0; j < n; ++j) c[j] = c[j] * LD(p.leak) + (LD(p.mu) * e) * std::conj(r[j]) / nrm;
+            auto seen = [&](LD m) { if (m > 0 && m < min_inter) min_inter = m; };
+            seen(std::abs(e)); seen(std::abs(LD(p.mu) * e));
+            for (int j = 0; j < n; ++j) {
+                const LC du = (LD(p.mu) * e) * std::conj(r[j]) / nrm;
+                seen(std::abs(du)); seen(std::abs(du) * nrm); seen(std::abs(c[j] * LD(p.leak))); seen(std::abs(c[j] * r[j])); seen(std::norm(r[j]));
+                c[j] = c[j] * LD(p.leak) + du;
+                cscale = std::max(cscale, std::max(std::abs(du), std::abs(c[j])));
+            }
             return;
         }
         const LD lam = p.lam;
@@ -391,6 +401,7 @@ static void run_scenario(const Params& p, const std::vector<Frame<T>>& fr, uint6
             LC yr, er;
             ref.step(toL(F.x[k]), toL(F.d[k]), yr, er);
             scale = std::max(scale, std::max(std::abs(toL(F.d[k])), std::abs(yr)));
+            if (tolref > 0 && !failed_ref && p.kind != K_RLS && ref.min_inter < 1e-290L) { failed_ref = true; out.stat("ref_comparison_skipped_underflowing_products"); }
             if (tolref > 0 && !failed_ref) {
                 const LD err = std::max(std::abs(yr - toL(y[k])), std::abs(er - toL(e[k])));
                 if (err > ABS_FLOOR) upd(p.kind == K_RLS ? worst_rls_out_e18 : worst_ref_out_e15, err / (scale * ref.kappa), p.kind == K_RLS ? 1e-18L : 1e-15L);
@@ -403,6 +414,8 @@ static void run_scenario(const Params& p, const std::vector<Frame<T>>& fr, uint6
         if (tolref > 0 && !failed_ref) {
             LD cs = 1e-300L, ce = 0;
             for (int j = 0; j < p.L; ++j) { cs = std::max(cs, std::abs(ref.c[j])); ce = std::max(ce, std::abs(ref.c[j] - toL(c1[j]))); }
+            // coefficients that have shrunk (leakage, cancelling updates) keep the rounding errors of the larger terms they were formed from
+            if (p.kind != K_RLS) cs = std::max(cs, ref.cscale);
             if (ce > ABS_FLOOR) upd(p.kind == K_RLS ? worst_rls_coef_e18 : worst_ref_coef_e15, ce / (cs * ref.kappa), p.kind == K_RLS ? 1e-18L : 1e-15L);
             if (!(ce <= tolref * ref.kappa * cs + ABS_FLOOR)) {
                 failed_ref = true;
